@@ -207,7 +207,7 @@ func hubScenario(c *ctxT, r *gen.R, h *hubUnderTest, closeHeavy bool) {
 			return false
 		}
 	}
-	if !waitAll(1500 * time.Millisecond) {
+	if !waitAll(5 * time.Second) {
 		for i, cl := range recvs {
 			select {
 			case <-cl.done:
@@ -375,7 +375,7 @@ func queueScenario(c *ctxT, r *gen.R) {
 	go func() { wg.Wait(); close(ch) }()
 	select {
 	case <-ch:
-	case <-time.After(1500 * time.Millisecond):
+	case <-time.After(5 * time.Second):
 		for i, cl := range recvs {
 			select {
 			case <-cl.done:
